@@ -29,7 +29,13 @@ def prepare_gdd(weather_df, sim_start, sim_end, gdd, crop, sum_fun):
 
     # add gdd as column
     assert len(gdd) == len(weather_df), "The length of 'gdd' does not match the number of rows in 'weather_df', check planting date is on or after simulation start date in first year."
-    weather_df['gdd']=gdd
+    # work on the dates alone: the table handed in may carry any other column
+    # (one of them may even be called 'gdd' or 'season'), and is not written to
+    weather_df = pd.DataFrame({
+        'Date': np.asarray(weather_df['Date']),
+        'gdd': np.asarray(gdd),
+        'season': np.nan,
+    })
 
     # Convert mm/dd formatted dates to datetime objects
     def parse_mmdd_to_datetime(mmdd_date, year):
